@@ -1,9 +1,9 @@
 package main
 
 import (
-	"strings"
 	"go/token"
 	"go/types"
+	"strings"
 
 	"golang.org/x/tools/go/ssa"
 )
@@ -130,7 +130,7 @@ func (a *freshAn) fieldStoresFresh(al *ssa.Alloc, field int) bool {
 				if _, isParam := r.Val.(*ssa.Parameter); isParam {
 					return false
 				}
-				if !a.fresh(r.Val) {
+				if !a.fresh(r.Val) && !structFieldFresh(r.Val, field, 0) {
 					return false
 				}
 			}
@@ -146,6 +146,40 @@ func (a *freshAn) fieldStoresFresh(al *ssa.Alloc, field int) bool {
 		}
 	}
 	return true
+}
+
+// structFieldFresh: v is a struct value whose given field holds memory allocated during the call that produced the
+// value: a copy of a local struct whose field is fresh, or the result of a repository function (a constructor) every
+// return of which is such a value.
+func structFieldFresh(v ssa.Value, field int, depth int) bool {
+	if depth > 3 {
+		return false
+	}
+	switch x := v.(type) {
+	case *ssa.UnOp:
+		if al, ok := x.X.(*ssa.Alloc); ok && x.Op == token.MUL {
+			return newFresh(al.Parent()).fieldStoresFresh(al, field)
+		}
+	case *ssa.Call:
+		callee := x.Call.StaticCallee()
+		if callee == nil || len(callee.Blocks) == 0 || callee.Signature.Results().Len() != 1 {
+			return false
+		}
+		if pp := programOf(callee.Prog); pp == nil || !pp.IsRepo(callee) {
+			return false
+		}
+		rets := returnsOf(callee)
+		if len(rets) == 0 {
+			return false
+		}
+		for _, ret := range rets {
+			if !structFieldFresh(ret.Results[0], field, depth+1) {
+				return false
+			}
+		}
+		return true
+	}
+	return false
 }
 
 func (a *freshAn) elemStoresFresh(base ssa.Value) bool {
